@@ -74,6 +74,21 @@ def acceptance(cfg):
             mask[i] = True
         if len(samples) < 5 and any(mask):
             samples.append({"sequence": "".join(seq), "alias_needed_before": [i for i, m in enumerate(mask) if m]})
+    # (b') the same for a table object that is the start of several pipelines: a repair found for
+    # the first must not spoil the second (the search for an alias must not modify shared nodes)
+    for k1, k2 in itertools.product(("F", "S", "U", "W", "J"), repeat=2):
+        n_checked += 1
+        try:
+            t, u = RL.sqlite_tables(C.SRC, RL.sqlite_engine(C.SRC, frames))
+            base = C.STEPS["W"](RL.RealAPI, t, u)
+            base = C.ALIAS(RL.RealAPI, base, u)
+            base = C.STEPS["P"](RL.RealAPI, base, u)
+            C.STEPS[k1](RL.RealAPI, base, u)
+            C.STEPS[k2](RL.RealAPI, base, u)
+        except SubqueryError:
+            viol.append({"key": f"c08.accept.reused-base.{k1}{k2}", "what": f"a table ending in alias() >> select, reused as the start of two pipelines ({k1}, then {k2}), raises SubqueryError although alias() precedes the verb", "payload": {}})
+        except Exception as e:  # noqa: BLE001
+            viol.append({"key": f"c08.accept.reused-base-error.{k1}{k2}", "what": f"{type(e).__name__}: {str(e)[:200]}", "payload": {}})
     # (c)
     never = []
     for n in range(1, 4):
